@@ -4,7 +4,7 @@
    (Errs.discr_run) raises before its registry lookup -- MissingDiscriminatorError for a missing key, ValueError
    for a non-mapping input, SuitableVariantNotFoundError for an unhashable tag -- and otherwise hands on the tag. *)
 From Coq Require Import List String ZArith Bool.
-From Verif Require Import Core Errs DiscrEmit K105cProofs.
+From Verif Require Import Core Errs ErrsDiscrEmit K105cProofs.
 From VerifGen Require Import K105c.
 Import ListNotations.
 Open Scope string_scope.
